@@ -12,6 +12,7 @@ use crate::model::*;
 pub struct Facts {
     pub nodes: u64,
     pub max_tsize: u64,
+    pub max_ot_tsize: u64,
     pub otn: u64,
     pub ot: u64,
     pub at: u64,
@@ -34,12 +35,15 @@ pub fn conforms(bytes: &[u8], ty: u64, kvs: &[Kv]) -> Result<Facts, String> {
         if got != kvs {
             return Err(format!("reading by the format description gives {} keys; first difference: {:?}", got.len(), got.iter().zip(kvs).find(|(a, b)| a != b)));
         }
-        let mut f = Facts { nodes: d.nodes.len() as u64, max_tsize: 0, otn: 0, ot: 0, at: 0, indexed: 0 };
+        let mut f = Facts { nodes: d.nodes.len() as u64, max_tsize: 0, max_ot_tsize: 0, otn: 0, ot: 0, at: 0, indexed: 0 };
         for n in d.nodes.values() {
             f.max_tsize = f.max_tsize.max(n.tsize as u64);
             match n.form {
                 Form::OneTransNext => f.otn += 1,
-                Form::OneTrans => f.ot += 1,
+                Form::OneTrans => {
+                    f.ot += 1;
+                    f.max_ot_tsize = f.max_ot_tsize.max(n.tsize as u64);
+                }
                 Form::AnyTrans => f.at += 1,
             }
             f.indexed += n.has_index as u64;
@@ -74,6 +78,7 @@ fn do_case(kvs: &[Kv], fr: Front, geom: Geom, ty: u64, st: &mut Stats, rep: &Rep
             st.count("nodes_any_trans", f.at);
             st.count("nodes_with_index", f.indexed);
             st.max("max_delta_bytes", f.max_tsize);
+            st.max("max_delta_bytes_in_single_transition_nodes", f.max_ot_tsize);
         }
         Err(msg) => rep.violation(
             format!("{} {:?} {:?} ty={}", if kvs.len() <= 8 { kvs_str(kvs) } else { format!("{} keys", kvs.len()) }, fr, geom, ty),
@@ -189,6 +194,14 @@ pub fn plan(tier: Tier) -> Plan {
             }
         }));
     }
+    p.units.push(unit("far-target-family-(2-and-3-byte-deltas-in-single-transition-nodes)", "far targets".into(), move |st, rep| {
+        for (_, kvs) in far_family() {
+            st.nontrivial += 1;
+            st.count("far_cases", 1);
+            do_case(&kvs, Front::RawInsert, DEFAULT_GEOM, 0, st, rep);
+            do_case(&kvs, Front::MapInsert, DEFAULT_GEOM, 0, st, rep);
+        }
+    }));
     let sizes: Vec<u64> = if thorough { vec![3_000, 70_000, 1_200_000] } else { vec![3_000, 70_000] };
     for n in sizes {
         p.units.push(unit("size-families", format!("size family {}", n), move |st, rep| {
@@ -198,6 +211,6 @@ pub fn plan(tier: Tier) -> Plan {
             do_case(&kvs, Front::RawInsert, (3, 3), 0, st, rep);
         }));
     }
-    p.must_be_nonzero = vec!["label_cases".into(), "fanout_cases".into(), "nodes_with_index".into(), "nodes_one_trans_next".into(), "nodes_one_trans".into()];
+    p.must_be_nonzero = vec!["far_cases".into(), "label_cases".into(), "fanout_cases".into(), "nodes_with_index".into(), "nodes_one_trans_next".into(), "nodes_one_trans".into()];
     p
 }
